@@ -26,10 +26,11 @@ func init() {
 			"R20.6 no hand-written exported function under pkg/trait has a body that can only panic. " +
 			"R20.8 index arithmetic that selects a mode value / a fan-speed preset is brought into [0,len) before the slice is indexed (wrap-around by remainder plus len for negatives; clamping for presets). " +
 			"R20.10 a derived operation that writes a freshly built, partially filled message names the paths it changes (WithUpdatePaths/WithUpdateMask) or rebuilds the rest from the old value in its interceptor, because an unmasked write replaces the whole stored message. " +
-			"R20.9 enter/leave totals: the matching total is incremented exactly for its own direction and ResetTotals writes both totals with both update paths; meter: RecordReading stamps end_time and Reset stamps start_time and end_time with one reading of the resource clock and forces the three paths.",
+			"R20.9 enter/leave totals: the matching total is incremented exactly for its own direction and ResetTotals writes both totals with both update paths; meter: RecordReading stamps end_time and Reset stamps start_time and end_time with one reading of the resource clock and forces the three paths. R20.24 methods of trait models read no package-level Default… variable: they work with the configuration the model holds.",
 		Assumptions: []string{"resource.Value/Collection write semantics (C02, C05)", "unitpb.Convert32 arithmetic (C18)"},
 		Run:         runC20,
 		Controls: []Control{
+			{Name: "fan-validates-against-the-default-presets", File: "pkg/trait/fanspeedpb/model.go", Old: "\t\tfor _, preset := range m.presets {\n\t\t\tif preset.Name == fanSpeed.Preset {", New: "\t\tfor _, preset := range DefaultPresets {\n\t\t\tif preset.Name == fanSpeed.Preset {", Expect: "R20.24"},
 			{Name: "inventory-options-replace", File: "pkg/trait/vendingpb/model_opts.go", Old: "\t\targs.inventoryOptions = append(args.inventoryOptions, opts...)", New: "\t\targs.inventoryOptions = opts", Expect: "R20.23"},
 			{Name: "add-child-overwrites", File: "pkg/trait/parentpb/model.go", Old: "m.children.Add(child.Name, child)", New: "m.children.Update(child.Name, child, resource.WithCreateIfAbsent())", Expect: "R20.22"},
 			{Name: "refused-dispense-merged-without-reset", File: "pkg/trait/vendingpb/model.go", Old: "\t\t\tproto.Reset(newVal)\n\t\t\tproto.Merge(newVal, oldVal)\n", New: "\t\t\tproto.Merge(newVal, oldVal)\n", Expect: "R20.21"},
@@ -73,6 +74,8 @@ func runC20(c *an.Ctx) {
 	c.Min("R20.18", 3)
 	r2023(c, "R20.23")
 	c.Min("R20.23", 3)
+	r2024(c, "R20.24")
+	c.Min("R20.24", 1)
 	r2022(c, "R20.22")
 	c.Min("R20.22", 1)
 	r2021(c, "R20.21")
@@ -2520,6 +2523,46 @@ func r2022(c *an.Ctx, rule string) {
 // an option that assigns instead of appending keeps only the last one, so configured stock/items silently vanish.
 // Every With… option of a trait package that stores its variadic resource options into a slice of the model's
 // arguments stores a value built from the slice's current content and its own argument.
+// r2024: a model works with the configuration it was given. The package-level Default… variables of the trait
+// packages (default presets, default modes, default options) are what a model starts from when nothing else is
+// configured; they are read while a model is built, not by the model's methods, which consult the copy the model
+// holds. A method reading the default instead validates against, or derives from, a list the model was not
+// configured with (a fan with its own presets rejects them and accepts names it cannot derive).
+func r2024(c *an.Ctx, rule string) {
+	n := 0
+	for _, fn := range c.Prog.FuncsIn("pkg/trait") {
+		if c.Prog.IsGenerated(fn.Pos()) || strings.HasSuffix(c.Prog.RelFile(fn.Pos()), "_test.go") {
+			continue
+		}
+		top := fn
+		for top.Parent() != nil {
+			top = top.Parent()
+		}
+		if top.Signature.Recv() == nil || !strings.HasSuffix(an.NamedTypeName(top.Signature.Recv().Type()), ".Model") {
+			continue
+		}
+		n++
+		var bad ssa.Instruction
+		which := ""
+		an.Instrs(fn, func(in ssa.Instruction) {
+			for _, op := range in.Operands(nil) {
+				if g, ok := (*op).(*ssa.Global); ok && strings.HasPrefix(g.Name(), "Default") && g.Pkg == fn.Pkg {
+					bad, which = in, g.Name()
+				}
+			}
+		})
+		if bad != nil {
+			c.SawFunc(an.FuncName(top))
+			c.Bad(rule, an.FuncName(top)+"|uses the model's configuration, not the package default", bad.Pos(),
+				"the method reads the package default "+which+": a model configured otherwise (its own presets, modes) is validated and derived against a list it does not have, so accepted values cannot be derived and its own values are refused")
+		}
+	}
+	c.Count("model_methods", n)
+	if n > 0 {
+		c.Ok(rule, "pkg/trait|model methods read no package default", token.NoPos, fmt.Sprintf("%d methods of trait models", n))
+	}
+}
+
 func r2023(c *an.Ctx, rule string) {
 	n := 0
 	for _, fn := range c.Prog.FuncsIn("pkg/trait") {
